@@ -33,6 +33,8 @@ def gen_cases(tier, seed):
             cfgd["rho"] = float(10.0 ** rng.uniform(-6, 1))
         if rng.random() < 0.2:
             cfgd["lamb_init"] = float(10.0 ** rng.uniform(-2, 1))
+        if rng.random() < 0.25:
+            cfgd.update(C.rare_params(rng, allow_unvalidated=True))
         case = work.mk_case(fam, [seed, k], cfgd)
         case["y0"] = "rand" if rng.random() < 0.4 else "none"
         if rng.random() < 0.1:
